@@ -82,6 +82,9 @@ def general(rnd, nsteps=30, codec=None, U=None, cfg=None, nclients=None, feature
                       path=rnd.choice(["-", "/", "/app"]), secure=rnd.choice([0, 1]), httponly=rnd.choice([0, 1]),
                       samesite=rnd.choice([0, 1, 2, 3, 4]), maxage=rnd.choice([0, 3600, 315360000]),
                       expoff=rnd.choice([0, 3600, 315360000]))
+        if rnd.random() < 0.3:
+            # NewSessionCookie hands out one template object again and again (the package only sets name and value on it)
+            cookie["shared"] = 1
     emit_cfg(sc, codec, cfg, cookie, rnd)
     clients = [Client(i, rnd) for i in range(nclients or rnd.randint(1, 4))]
     minted = 0  # upper bound on ids minted so far (for forged 'dead id' picks)
